@@ -21,6 +21,16 @@ CREATE OR REPLACE MACRO vtl_period_limit(indicator VARCHAR) AS (
     END
 );
 
+-- Actual number of periods of an indicator in a given year (53 ISO weeks / 366 days when the
+-- calendar has them, 28 December always lies in the last ISO week of its year)
+CREATE OR REPLACE MACRO vtl_periods_in_year(indicator VARCHAR, yr INTEGER) AS (
+    CASE indicator
+        WHEN 'W' THEN WEEKOFYEAR(MAKE_DATE(yr, 12, 28))
+        WHEN 'D' THEN DAYOFYEAR(MAKE_DATE(yr, 12, 31))
+        ELSE vtl_period_limit(indicator)
+    END
+);
+
 -- TimePeriod → end DATE
 CREATE OR REPLACE MACRO vtl_tp_end_date(p vtl_time_period) AS (
     CASE p.period_indicator
@@ -296,6 +306,19 @@ CREATE OR REPLACE MACRO vtl_tp_shift(p vtl_time_period, n INTEGER) AS (
         WHEN 'A' THEN
             vtl_period_to_string({'year': p.year + n,
                 'period_indicator': 'A', 'period_number': 1}::vtl_time_period)
+        -- Weeks and days per year vary (52/53 ISO weeks, 365/366 days): shift on the calendar
+        WHEN 'W' THEN
+            vtl_period_to_string({
+                'year': ISOYEAR(CAST(vtl_tp_start_date(p) + INTERVAL (n * 7) DAY AS DATE)),
+                'period_indicator': 'W',
+                'period_number': WEEKOFYEAR(CAST(vtl_tp_start_date(p) + INTERVAL (n * 7) DAY AS DATE))
+            }::vtl_time_period)
+        WHEN 'D' THEN
+            vtl_period_to_string({
+                'year': YEAR(CAST(vtl_tp_start_date(p) + INTERVAL (n) DAY AS DATE)),
+                'period_indicator': 'D',
+                'period_number': DAYOFYEAR(CAST(vtl_tp_start_date(p) + INTERVAL (n) DAY AS DATE))
+            }::vtl_time_period)
         ELSE
             vtl_period_to_string({
                 'year': p.year + CASE
